@@ -29,7 +29,7 @@ RULE = ("cases: seeded surfaces in phreeqc.dat and (one in four) wateq4f.dat wit
 ASSUME = ["physical constants are the manual's / engine's (F = 96493.5, R = 8.3147, eps0 = 8.854e-12)", "surface-species activities follow the mole-fraction convention the manual defines; "
           "all database species are monodentate so the convention cancels inside each reaction", "CD-MUSIC with Hfo: only the site balance (the database gives no charge-distribution parameters for Hfo); one case in eight uses a goethite-like CD-MUSIC surface defined in the input and judges the two capacitor laws and the site balance",
           "runs that report an error are inconclusive",
-          "with an explicit Donnan layer (-donnan, -only_counter_ions) the Gouy-Chapman relation is judged at 1e-6 relative instead of 1e-8: the layer's composition is iterated separately (measured residual 3e-7 near the point of zero charge)",
+          "with an explicit Donnan layer (-donnan, -only_counter_ions) the Gouy-Chapman relation is judged at 1e-5 relative + 1e-8 C/m2 instead of 1e-8: the layer's composition is iterated separately (measured residual up to 6e-6 relative / 8e-10 C/m2 near the point of zero charge)",
           "site balances carry an absolute floor of 1e-14 mol next to 1e-8 relative: the solver accepts a balance whose absolute residual is below KNOBS -tolerance (1e-15) whatever the total (model.cpp, residuals())"]
 
 F_C = 96493.5
@@ -278,9 +278,85 @@ def run_kin(ctx, case):
     return Result(HELD, sigs=sigs, sample=sample, stats=stats)
 
 
+def run_bident(ctx, case):
+    """a surface defined in the input whose site type also forms a bidentate species (2 Su_OH + Zn+2 = (Su_O)2Zn + 2 H+): the site balance counts every species
+    with the number of sites it occupies; the charge law is judged as for Hfo"""
+    r = ctx.rng("bident", case["i"])
+    f = gens.fmt
+    model = r.choice(["ddl", "ddl", "no_edl", "ccm", "donnan"])
+    cap = r.choice([0.8, 1.5, 2.9])
+    sites, area, mass = gens.loguni(r, 1e-4, 3e-3), r.choice([50, 100, 600]), gens.loguni(r, 0.1, 3)
+    ph, ionic, zn = round(r.uniform(5, 9), 2), gens.loguni(r, 1e-3, 0.2), gens.loguni(r, 1e-6, 1e-3)
+    lkz = round(r.uniform(-8, -3), 2)
+    species = {"Su_OH": (1, 0), "Su_O-": (1, -1), "Su_OH2+": (1, 1), "(Su_O)2Zn": (2, 0), "Su_OZn+": (1, 1)}      # name -> (sites occupied, charge)
+    heads = ["tk", "mu", "eps", "kgw", "psi"] + ["mol:%s" % k for k in species]
+    items = ["TK", "MU", "EPS_R", 'TOT("water")', 'EDL("psi", "Su")'] + ['MOL("%s")' % k for k in species]
+    prog, ln = [], 10
+    for i in range(0, len(items), 5):
+        prog.append(" %d PUNCH %s" % (ln, ", ".join(items[i:i + 5])))
+        ln += 10
+    text = ("KNOBS\n -convergence_tolerance 1e-12\n -iterations 400\nSURFACE_MASTER_SPECIES\n Su_ Su_OH\nSURFACE_SPECIES\n Su_OH = Su_OH\n log_k 0\n Su_OH = Su_O- + H+\n log_k -8.2\n Su_OH + H+ = Su_OH2+\n log_k 6.5\n"
+            " 2Su_OH + Zn+2 = (Su_O)2Zn + 2H+\n log_k %s\n Su_OH + Zn+2 = Su_OZn+ + H+\n log_k -2.5\n" % f(lkz) +
+            "SELECTED_OUTPUT 1\n -reset false\n -state true\nUSER_PUNCH 1\n -headings %s\n -start\n%s\n -end\n" % (" ".join(heads), "\n".join(prog)) +
+            "SOLUTION 1\n temp 25\n pH %s\n units mol/kgw\n Na %s\n Cl %s charge\n Zn %s\n" % (f(ph), f(ionic), f(ionic), f(zn)) +
+            "SURFACE 1\n -equilibrate 1\n Su_OH %s %s %s\n" % (f(sites), f(area), f(mass)) +
+            {"ddl": "", "no_edl": " -no_edl\n", "ccm": " -ccm %s\n" % f(cap), "donnan": " -donnan\n"}[model] + "SAVE surface 1\nEND\n" +
+            "USE solution 1\nUSE surface 1\nREACTION 1\n %s 1\n %s mol\nEND\n" % (r.choice(["HCl", "NaOH", "NaCl"]), f(gens.loguni(r, 1e-5, 5e-4))))
+    cwd = ctx.scratch(case["id"])
+    s = core.Script()
+    s.raw("new a")
+    s.raw("loaddb a " + os.path.join(ctx.db, "phreeqc.dat"))
+    s.run("a", text)
+    s.raw("snap a se")
+    run = core.run_vdrive(ctx.bin("opt"), s.bytes(), cwd, timeout=120)
+    if core.process_failure(run):
+        return Result(INCONCLUSIVE, reason="process failure")
+    rr, sn = core.rets(run, "run"), core.rets(run, "snap")
+    if not rr or rr[0].get("r") != 0 or not sn or not sn[0]["selout"]:
+        et = (sn[0]["error"].get("text", "") if sn else "").strip().split("\n")[0]
+        return Result(INCONCLUSIVE, reason="run reports errors: " + " ".join(et.split())[:45])
+    cells = sn[0]["selout"][0]["cells"]
+    hd = [c[1] for c in cells[0]]
+    rows = [{h: (c[1] if c[0] == "s" else (float(c[1]) if c[0] in "dl" else None)) for h, c in zip(hd, row)} for row in cells[1:]]
+    srows = [d for d in rows if d.get("state") in ("i_surf", "react")]
+    if not srows:
+        return Result(INCONCLUSIVE, reason="no surface row")
+    want = float(f(sites))
+    findings, sigs, nchk, worst = [], set(), 0, 0.0
+    for d in srows:
+        kgw, tk, mu, eps, psi = d["kgw"], d["tk"], d["mu"], d["eps"], d["psi"]
+        mol = {h[4:]: v for h, v in d.items() if h.startswith("mol:") and v is not None}
+        tot = sum(v * kgw * species[k][0] for k, v in mol.items())
+        nchk += 1
+        sigs.add("bidentate|%s|%s" % (model, d.get("state")))
+        if abs(tot - want) > 1e-8 * want + 1e-14:
+            findings.append(("C20/site-balance/bidentate", "%s (%s, %s): the species of Su_ occupy %.12g mol of sites (the bidentate (Su_O)2Zn counted twice, %.6g mol of it), %.12g defined" % (
+                case["id"], model, d.get("state"), tot, mol.get("(Su_O)2Zn", 0.0) * kgw, want)))
+        if model in ("ddl", "ccm") and psi is not None:
+            atot = area * float(f(mass))
+            q = sum(v * kgw * species[k][1] for k, v in mol.items())
+            qabs = sum(abs(v * kgw * species[k][1]) for k, v in mol.items())
+            sig_species = q * F_C / atot
+            law = cap * psi if model == "ccm" else math.sqrt(8000.0 * eps * EPS0 * R_J * tk * mu) * math.sinh(F_C * psi / (2.0 * R_J * tk))
+            rel = abs(law - sig_species) / max(abs(law), abs(sig_species), 1e-30)
+            worst = max(worst, rel)
+            nchk += 1
+            if abs(law - sig_species) > 1e-7 * max(abs(law), abs(sig_species)) + 1e-9 * qabs * F_C / atot and abs(sig_species) > 1e-12:      # secondary here (measured 2e-8 next to the point of zero charge); the charge laws proper are judged on Hfo
+                findings.append(("C20/bidentate/charge-law/%s" % model, "%s: sigma from species %.12g C/m2, %s at psi = %.9g V gives %.12g (relative %.2e)" % (
+                    case["id"], sig_species, "C psi" if model == "ccm" else "Gouy-Chapman", psi, law, rel)))
+    stats = {"n_checks": nchk, "worst_sigma_rel": worst}
+    sample = dict(id=case["id"], model="bidentate/" + model, sites=want, pH=ph, I=ionic, Zn=zn, rows=len(srows))
+    if findings:
+        k_, w_ = findings[0]
+        return Result(VIOLATED, key=k_, what=w_, findings=findings[1:], sigs=sigs, sample=sample, stats=stats)
+    return Result(HELD, sigs=sigs, sample=sample, stats=stats)
+
+
 def run_case(ctx, case):
     if case["i"] % 8 == 7:
         return run_goe(ctx, case)
+    if case["i"] % 8 == 5:
+        return run_bident(ctx, case)
     if case["i"] % 8 == 3:
         return run_kin(ctx, case)
     db = c01.get_db(ctx, case["db"])
@@ -379,8 +455,9 @@ def run_case(ctx, case):
             nchk += 1
             rel = abs(gc - sig_species) / max(abs(gc), abs(sig_species), 1e-30)
             worst_sig = max(worst_sig, rel)
-            gtol = 1e-8 if model == "ddl" else 1e-6      # with an explicit Donnan layer the charge balance closes over the layer's content, which is iterated to its own tolerance (measured: 3e-7 near the point of zero charge)
-            if abs(gc - sig_species) > gtol * max(abs(gc), abs(sig_species)) + 1e3 * sig_floor and abs(sig_species) > 1e-12:      # the solver fixes the net charge to about 1e-9 of the charged sites
+            gtol = 1e-8 if model == "ddl" else 1e-5      # with an explicit Donnan layer the charge balance closes over the layer's content, which is iterated to its own tolerance (measured: up to 6e-6 relative, 8e-10 C/m2, near the point of zero charge)
+            gabs = 0.0 if model == "ddl" else 1e-8
+            if abs(gc - sig_species) > gtol * max(abs(gc), abs(sig_species)) + gabs + 1e3 * sig_floor and abs(sig_species) > 1e-12:      # the solver fixes the net charge to about 1e-9 of the charged sites
                 findings.append(("C20/gouy-chapman" + ("" if model == "ddl" else "/" + model), "%s: sigma from species %.12g C/m2, Gouy-Chapman at psi = %.9g V, I = %.6g, eps = %.6g, T = %.2f K gives %.12g (relative %.2e)" % (
                     case["id"], sig_species, psi, mu, eps, tk, gc, rel)))
         if model == "ccm":
